@@ -20,6 +20,40 @@ def expLoop (cfg : Config) (est : Nat → Nat) (x : Dec) (xdigits : Nat) :
     if Spec.valueEq prev trimmed then some trimmed
     else expLoop cfg est x xdigits fuel (n + 1) term' factorial' result' trimmed
 
+/-- the same loop, also returning the index `n` of the last term added (the stop index) -/
+def expLoopN (cfg : Config) (est : Nat → Nat) (x : Dec) (xdigits : Nat) :
+    Nat → Nat → Dec → Nat → Dec → Dec → Option (Nat × Dec)
+  | 0, _, _, _, _, _ => none
+  | fuel + 1, n, term, factorial, result, prev =>
+    let term' := mulAssignDec term x
+    let factorial' := factorial * n
+    let q := implDivision term'.int factorial' term'.scale (expTermPrecision cfg xdigits)
+    let result' := addAssignDec result q
+    let trimmed := result'.withPrec est (cfg.precision + expGuardDigits)
+    if Spec.valueEq prev trimmed then some (n, trimmed)
+    else expLoopN cfg est x xdigits fuel (n + 1) term' factorial' result' trimmed
+
+theorem expLoop_eq_expLoopN (cfg : Config) (est : Nat → Nat) (x : Dec) (xdigits : Nat) :
+    ∀ (fuel n : Nat) (term : Dec) (factorial : Nat) (result prev : Dec),
+      expLoop cfg est x xdigits fuel n term factorial result prev =
+        (expLoopN cfg est x xdigits fuel n term factorial result prev).map Prod.snd := by
+  intro fuel
+  induction fuel with
+  | zero => intros; rfl
+  | succ fuel ih =>
+    intro n term factorial result prev
+    unfold expLoop expLoopN
+    simp only
+    split
+    · rfl
+    · exact ih _ _ _ _ _
+
+/-- the stop index of the series for `|x|` (the number of the last Taylor term added) -/
+def Dec.expStopIndex (cfg : Config) (est : Nat → Nat) (x : Dec) (fuel : Nat := 20000) : Option Nat :=
+  let a := x.abs
+  let r0 := addBigdecimals a Dec.one
+  (expLoopN cfg est a a.digits fuel 2 a 1 r0 r0).map Prod.fst
+
 /-- `exp_untrimmed` (non-negative argument) -/
 def expUntrimmed (cfg : Config) (est : Nat → Nat) (x : Dec) (fuel : Nat) : Option Dec :=
   let r0 := addBigdecimals x Dec.one                       -- `self.clone() + BigDecimal::one()`
@@ -32,5 +66,33 @@ def Dec.exp (cfg : Config) (est : Nat → Nat) (x : Dec) (fuel : Nat := 20000) :
     (expUntrimmed cfg est x.abs fuel).map fun pos =>
       (implDivision 1 pos.int (-pos.scale) cfg.precision).withPrec est cfg.precision
   else (expUntrimmed cfg est x fuel).map fun r => r.withPrec est cfg.precision
+
+
+/-- `exp` together with the stop index of its series (0 for a zero argument); one run of the loop -/
+def Dec.expN (cfg : Config) (est : Nat → Nat) (x : Dec) (fuel : Nat := 20000) : Option (Nat × Dec) :=
+  if x.isZero then some (0, Dec.one)
+  else
+    let a := if x.int < 0 then x.abs else x
+    let r0 := addBigdecimals a Dec.one
+    (expLoopN cfg est a a.digits fuel 2 a 1 r0 r0).map fun (n, r) =>
+      if x.int < 0 then (n, (implDivision 1 r.int (-r.scale) cfg.precision).withPrec est cfg.precision)
+      else (n, r.withPrec est cfg.precision)
+
+theorem Dec.exp_eq_expN (cfg : Config) (est : Nat → Nat) (x : Dec) (fuel : Nat) :
+    x.exp cfg est fuel = (x.expN cfg est fuel).map Prod.snd := by
+  unfold Dec.exp Dec.expN
+  split
+  · rfl
+  · split
+    · rename_i hneg
+      simp only [hneg, if_true]
+      unfold expUntrimmed
+      rw [expLoop_eq_expLoopN]
+      cases expLoopN cfg est x.abs x.abs.digits fuel 2 x.abs 1 (addBigdecimals x.abs Dec.one) (addBigdecimals x.abs Dec.one) <;> rfl
+    · rename_i hneg
+      simp only [hneg, if_false]
+      unfold expUntrimmed
+      rw [expLoop_eq_expLoopN]
+      cases expLoopN cfg est x x.digits fuel 2 x 1 (addBigdecimals x Dec.one) (addBigdecimals x Dec.one) <;> rfl
 
 end BigDec
